@@ -353,10 +353,18 @@ example : constantTimeCompare [1, 2, 255] [1, 2, 255] = 1 ∧ constantTimeCompar
 
 /-- **Every byte of the executable is hashed**: what reaches the hasher is the file's whole content, whatever its size. -/
 theorem whole_file_hashed (C : CheckParams) (hC : C.Good) (b : Bytes) : hashedPart C b = b := by
-  simp [hashedPart, show C.wholeFile = true from hC]
+  simp [hashedPart, show C.wholeFile = true from hC.1]
 
 /-- Witness: with a read limit, two executables that differ only beyond the limit are indistinguishable to `Check` — a
 payload appended past the limit runs unverified -/
-theorem read_limit_witness : hashedPart ⟨false, 4⟩ [1, 2, 3, 4, 5] = hashedPart ⟨false, 4⟩ [1, 2, 3, 4, 66, 77] := by decide
+theorem read_limit_witness : hashedPart ⟨false, 4, true⟩ [1, 2, 3, 4, 5] = hashedPart ⟨false, 4, true⟩ [1, 2, 3, 4, 66, 77] := by decide
+
+/-- **Every `Start` verifies**: a client that was refused is verified again when it is asked again — no attempt launches
+without the check. -/
+theorem every_attempt_verifies (C : CheckParams) (hC : C.Good) (attempt : Nat) : verifiesOnAttempt C attempt = true := by
+  simp [verifiesOnAttempt, hC.2]
+
+/-- Witness: a "checked once" flag set before the verdict lets the second `Start` through unverified -/
+theorem checked_once_witness : verifiesOnAttempt ⟨true, 0, false⟩ 1 = false := by decide
 
 end GoPlugin.Props.C13
